@@ -223,13 +223,14 @@ fn one(id: &str, oc: Outcome, src: &str, out: &mut String, stats: &mut (usize, u
                     };
                     writeln!(
                         out,
-                        "{}\tCASE\t{}\t{}\t{}\t{}\t{}",
+                        "{}\tCASE\t{}\t{}\t{}\t{}\t{}\t{}",
                         id,
                         off,
                         env_dump(&c).to_text(),
                         anf_annot(&c.anf).to_text(),
                         godump::gfile(&g).to_text(),
-                        godump::gfile(&c.go).to_text()
+                        godump::gfile(&c.go).to_text(),
+                        impls.to_text()
                     )
                     .unwrap();
                 }
